@@ -139,9 +139,10 @@ TypOf(o) ==
          IF t.k # "name" THEN "NoType"
          ELSE IF t.v = "Page" THEN "Page" ELSE IF t.v = "Pages" THEN "Pages" ELSE "Other"
 
-KidsOfObj(o) ==
+\* (any dictionary value may be indirect, 7.3.10: Kids and Count are read through references)
+KidsOfObj(objs, o) ==
     IF o.k # "dict" THEN <<>>
-    ELSE LET a == Get(o.v, "Kids") IN
+    ELSE LET a == Target(objs, Get(o.v, "Kids")) IN
          IF a.k = "arr" THEN [i \in 1..Len(a.v) |-> IF a.v[i].k = "ref" THEN a.v[i].n ELSE 0] ELSE <<>>
 
 PageRoot(d) ==
@@ -152,7 +153,7 @@ PageRoot(d) ==
 Graph(d) ==
     [root  |-> PageRoot(d),
      typ   |-> [id \in DOMAIN d.objs |-> TypOf(d.objs[id])],
-     kids  |-> [id \in DOMAIN d.objs |-> KidsOfObj(d.objs[id])],
+     kids  |-> [id \in DOMAIN d.objs |-> KidsOfObj(d.objs, d.objs[id])],
      extra |-> 0]
 
 PageSeq(d) == PT!Dfs(Graph(d))                 \* leaf pages, depth first, left to right
@@ -162,12 +163,21 @@ PageSet(d) == RangeOf(PageSeq(d))
 TreeNodes(d)  == PT!Reach(Graph(d)) \cap DOMAIN d.objs
 PagesNodes(d) == {n \in TreeNodes(d) : TypOf(d.objs[n]) = "Pages"}
 
-CountOf(o) == LET c == Get(o.v, "Count") IN IF c.k = "int" THEN c.v ELSE -1
+CountOf(objs, o) == LET c == Target(objs, Get(o.v, "Count")) IN IF c.k = "int" THEN c.v ELSE -1
 
 \* Page-tree Counts equal the number of leaf pages
 CountsOk(d) ==
     LET g == Graph(d) fuel == Cardinality(DOMAIN d.objs) + 1 IN
-    \A n \in PagesNodes(d) : CountOf(d.objs[n]) = Len(PT!DfsFrom(g, n, fuel))
+    \A n \in PagesNodes(d) : CountOf(d.objs, d.objs[n]) = Len(PT!DfsFrom(g, n, fuel))
+\* ... which on a tree is the same as: every node's Count is the sum over its kids of 1 (a page) or the
+\* kid's Count (a Pages node) -- the form Aux evaluates (linear in the size of the tree)
+CountsLocal(d, g, tree) ==
+    \A n \in {m \in tree : g.typ[m] = "Pages"} :
+        CountOf(d.objs, d.objs[n]) =
+            FoldLeft(LAMBDA acc, k : acc + (IF k \notin DOMAIN d.objs THEN 0
+                                            ELSE IF g.typ[k] = "Page" THEN 1
+                                            ELSE IF g.typ[k] = "Pages" THEN CountOf(d.objs, d.objs[k]) ELSE 0),
+                     0, g.kids[n])
 
 \* ancestors of node n (its Parent chain)
 RECURSIVE AncestorsF(_, _, _)
@@ -175,7 +185,7 @@ AncestorsF(objs, n, fuel) ==
     LET o == IF n \in DOMAIN objs THEN objs[n] ELSE None
         p == IF o.k = "dict" THEN Get(o.v, "Parent") ELSE None
     IN IF p.k # "ref" \/ fuel = 0 THEN {} ELSE {p.n} \cup AncestorsF(objs, p.n, fuel - 1)
-Ancestors(objs, n) == AncestorsF(objs, n, 8)
+Ancestors(objs, n) == AncestorsF(objs, n, Cardinality(DOMAIN objs))
 
 \* the content streams of a page, in order (7.7.3.3: Contents is a stream or an array of streams,
 \* either of them possibly behind references)
@@ -279,9 +289,15 @@ Aux(d) ==
     IN [reach   |-> reach,
         pp      |-> pp,
         tree    |-> tree,
-        prot    |-> tree \cup (IF root.k = "ref" THEN {root.n} ELSE {}),
+        \* (with the objects behind indirect Kids / Count entries of the tree's nodes)
+        prot    |-> tree \cup (IF root.k = "ref" THEN {root.n} ELSE {})
+                    \cup UNION {LET o == d.objs[n] IN
+                                IF o.k # "dict" THEN {}
+                                ELSE UNION {IF Get(o.v, key).k = "ref" THEN {Get(o.v, key).n, TargetId(d.objs, Get(o.v, key))} ELSE {}
+                                            : key \in {"Kids", "Count"}}
+                                : n \in tree},
         content |-> [p \in RangeOf(pp) |-> Content(d.objs, p)],
-        counts  |-> \A n \in {m \in tree : g.typ[m] = "Pages"} : CountOf(d.objs[n]) = Len(PT!DfsFrom(g, n, fuel)),
+        counts  |-> CountsLocal(d, g, tree),
         cobjs   |-> UNION {ContentChain(d.objs, p) : p \in RangeOf(pp)},
         sound   |-> refs \subseteq DOMAIN d.objs
                     /\ \A p \in RangeOf(pp) : \A i \in DOMAIN ContentIds(d.objs, p) :
@@ -294,7 +310,18 @@ ResHolderF(objs, n, fuel) ==
     IF o.k # "dict" \/ fuel = 0 THEN 0
     ELSE IF Has(o.v, "Resources") THEN n
     ELSE LET par == Get(o.v, "Parent") IN IF par.k = "ref" THEN ResHolderF(objs, par.n, fuel - 1) ELSE 0
-ResHolder(objs, p) == ResHolderF(objs, p, 8)
+ResHolder(objs, p) == ResHolderF(objs, p, Cardinality(DOMAIN objs) + 1)
+\* how many Parent links above the page the Resources entry in effect stands (0: on the page; -1: none)
+RECURSIVE HolderLevelF(_, _, _, _)
+HolderLevelF(objs, n, lvl, fuel) ==
+    LET o == GetObj(objs, n) IN
+    IF o.k # "dict" \/ fuel = 0 THEN -1
+    ELSE IF Has(o.v, "Resources") THEN lvl
+    ELSE LET par == Get(o.v, "Parent") IN IF par.k = "ref" THEN HolderLevelF(objs, par.n, lvl + 1, fuel - 1) ELSE -1
+HolderLevel(objs, p) == HolderLevelF(objs, p, 0, Cardinality(DOMAIN objs) + 1)
+\* get_or_create_resources looks for the inherited Resources at most this many levels up (creator.rs: `for _ in
+\* 0..128`); the model checker overrides it with a small number
+InheritBound == 128
 
 EffRes(objs, p) ==
     LET h == ResHolder(objs, p) IN
@@ -451,26 +478,45 @@ Judge(pre, A, gh, c, res, post, B, O1) ==
         pp1      == B.pp
         \* ---- FreshIds
         alloc    == newIds \cup (IF c.op \in {"NewObjectId", "AddObject", "BuildOutline"} /\ res.id # 0 THEN {res.id} ELSE {})
-        fresh    == IF c.op \in Allocating /\ alloc \cap (DOMAIN pre.objs \cup gh.issued) # {} THEN {"fresh"} ELSE {}
+        \* ids handed out although in use: returned / new ids that exist or were issued, and objects above max_id
+        \* (where the allocator goes next) that the call overwrote
+        clash    == IF c.op \in Allocating
+                    THEN (alloc \cap (DOMAIN pre.objs \cup gh.issued))
+                         \cup {id \in DOMAIN pre.objs \ ws : id > pre.max_id /\ changed(id)}
+                    ELSE {}
+        \* (aboveMax: every colliding id is an object that set_object stored above max_id)
+        aboveMax == clash # {} /\ \A id \in clash : id \in DOMAIN pre.objs /\ id > pre.max_id
+        fresh    == IF clash = {} THEN {} ELSE IF aboveMax THEN {"fresh.aboveMax"} ELSE {"fresh"}
         \* ---- Frame
-        frame    == (IF \E id \in reach \ ws : changed(id) THEN {"frame"} ELSE {})
+        frame    == (IF \E id \in (reach \ ws) \ (IF aboveMax THEN clash ELSE {}) : changed(id) THEN {"frame"} ELSE {})
                     \cup (IF c.op \notin Rekeying /\ post.trailer # pre.trailer
                              /\ ~(IsDeletion(c) /\ RefsOf(DictO(pre.trailer)) \cap X # {})
                           THEN {"frame.trailer"} ELSE {})
-        unreach  == IF c.op # "Prune" /\ \E id \in (DOMAIN pre.objs \ reach) \ ws : changed(id) THEN {"drift.unreach"} ELSE {}
+        unreach  == IF c.op # "Prune" /\ \E id \in ((DOMAIN pre.objs \ reach) \ ws) \ (IF aboveMax THEN clash ELSE {}) : changed(id)
+                    THEN {"drift.unreach"} ELSE {}
         \* ---- NoStaleRef
-        stale    == IF IsDeletion(c) THEN StaleTags(pre, post, B.reach, X) ELSE {}
+        stale    == IF IsDeletion(c)
+                    THEN StaleTags(pre, post, B.reach, X)
+                         \* a pending bookmark still targets a deleted object: build_outline would refer to it again
+                         \cup (IF X \cap RangeOf(post.bms) # {} THEN {"delete.bookmark"} ELSE {})
+                    ELSE {}
         \* ---- PruneExact
         prune    == IF c.op = "Prune" /\ (DOMAIN post.objs # reach \/ RangeOf(res.ids) # DOMAIN pre.objs \ reach)
                     THEN {"prune"} ELSE {}
         \* ---- CountsOk, MaxIdOk
-        counts   == IF B.counts \/ ~A.counts THEN {} ELSE {"counts"}        \* reported by the step that breaks it
+        counts   == IF B.counts \/ ~A.counts THEN {}                       \* reported by the step that breaks it
+                    ELSE IF c.op = "DeletePages"
+                            /\ \E p \in X : \E a \in Ancestors(pre.objs, p) :
+                                  a \in DOMAIN pre.objs /\ pre.objs[a].k = "dict" /\ Get(pre.objs[a].v, "Count").k = "ref"
+                         THEN {"counts.indirect"}                          \* an ancestor's Count is an indirect integer
+                    ELSE {"counts"}
         issued1  == CASE c.op = "NewObjectId" -> gh.issued \cup {res.id}
                       [] c.op = "Replace"     -> gh.issued \ {c.id}
                       [] c.op \in Rekeying    -> {}
                       [] OTHER                -> gh.issued
         maxid    == IF post.max_id >= MaxOf(DOMAIN post.objs \cup issued1)
-                       \/ pre.max_id < MaxOf(DOMAIN pre.objs \cup gh.issued) THEN {} ELSE {"maxid"}
+                       \/ pre.max_id < MaxOf(DOMAIN pre.objs \cup gh.issued) THEN {}
+                    ELSE IF c.op = "Replace" /\ c.id > pre.max_id THEN {"maxid.setObject"} ELSE {"maxid"}
         \* ---- ContentOk
         badp     == {p \in RangeOf(pp1) : B.content[p] # exp[p]}
         content  == IF badp = {} THEN {}
@@ -512,7 +558,7 @@ Judge(pre, A, gh, c, res, post, B, O1) ==
         resmono  == IF lost = {} THEN {}
                     ELSE LET p0 == GetObj(pre.objs, c.id) p1 == GetObj(post.objs, c.id) IN
                          IF p0.k = "dict" /\ p1.k = "dict" /\ ~Has(p0.v, "Resources") /\ Has(p1.v, "Resources")
-                         THEN {"resources.shadow"} ELSE {"resmono"}
+                         THEN (IF HolderLevel(pre.objs, c.id) >= InheritBound THEN {"resources.shadow.deep"} ELSE {"resources.shadow"}) ELSE {"resmono"}
         \* insert_image / insert_form_object choose the resource name themselves: NOTHING any page could
         \* use before may be taken away, also not an entry that already has the chosen name
         lostAt(q) == LET after == ResTriples(post.objs, q) IN {t \in ResTriples(pre.objs, q) : t \notin after}
@@ -524,11 +570,11 @@ Judge(pre, A, gh, c, res, post, B, O1) ==
                     ELSE (IF c.id \in DOMAIN lostIns /\ lostIns[c.id] # {}
                           THEN LET p0 == GetObj(pre.objs, c.id) p1 == GetObj(post.objs, c.id) IN
                                IF p0.k = "dict" /\ p1.k = "dict" /\ ~Has(p0.v, "Resources") /\ Has(p1.v, "Resources")
-                               THEN {"resources.shadow"} ELSE {"resmono"}
+                               THEN (IF HolderLevel(pre.objs, c.id) >= InheritBound THEN {"resources.shadow.deep"} ELSE {"resources.shadow"}) ELSE {"resmono"}
                           ELSE {})
                          \cup (IF \E q \in DOMAIN lostIns \ {c.id} : lostIns[q] # {} THEN {"resmono.other"} ELSE {})
         \* the objects the call stored as given (the image / form stream)
-        xids     == {id \in newIds : post.objs[id] = c.o}
+        xids     == {id \in newIds \cup clash : id \in DOMAIN post.objs /\ post.objs[id] = c.o}
         \* ---- the post-state the abstract model prescribes for the call
         eff(b)   == IF b THEN {} ELSE {"effect." \o c.op}
         effect   ==
@@ -583,7 +629,9 @@ Judge(pre, A, gh, c, res, post, B, O1) ==
                            ELSE res.id \in newIds /\ Cardinality(newIds) = 1 + 2 * Len(pre.bms))
               [] OTHER -> {"effect.unknown"}
         tags     == fresh \cup frame \cup unreach \cup stale \cup prune \cup counts \cup maxid \cup content \cup opsTag
-                    \cup resmono \cup insmono \cup effect
+                    \cup resmono \cup insmono
+                    \* (the object a known collision overwrote is reported by fresh.aboveMax alone)
+                    \cup (IF aboveMax THEN effect \ {"effect." \o c.op} ELSE effect)
     IN [tags |-> tags,
         \* the next ghost state; content is re-synchronised to what the document shows so that one
         \* reported mismatch is reported once
@@ -620,16 +668,25 @@ Violations(tags) == tags \ DriftTags
 (*   boundary get_page_content joined a page's content streams without white space, so the last operator  *)
 (*            of one stream and the first token of the next were decoded as one token (fix: 1ec5ee7; the  *)
 (*            model world's observation ObserveM decodes the plain concatenation when the switch is TRUE) *)
-(* DevAsIs = the code as it is: every switch FALSE.  DevSeeded = all repaired defects seeded back (a       *)
-(* negative control of the declarative layer: its violations must be exactly FormerFindings).             *)
-(* DevRepaired = DevAsIs without the asis mark (kept for experiments).                                     *)
+(* Four switches re-create deviations that are confirmed and still in the code (known findings):          *)
+(*   deep     get_or_create_resources looks for the inherited Resources at most InheritBound levels up    *)
+(*            and installs an empty dictionary when they stand higher                                     *)
+(*   setmax   set_object does not raise max_id when it stores under a number above it: the allocators     *)
+(*            hand that number out again                                                                  *)
+(*   icount   delete_pages skips a Count that is an indirect integer                                      *)
+(*   bmstale  delete_object / delete_pages leave a pending bookmark on the deleted object                 *)
+(* DevAsIs = the code as it is.  DevSeeded = additionally all repaired defects seeded back (a negative     *)
+(* control of the declarative layer).  DevRepaired = every switch FALSE (no violation at all).            *)
 
 DevAsIs     == [asis |-> TRUE, mode |-> "asis", dup |-> FALSE, sdict |-> FALSE, trailer |-> FALSE, shadow |-> FALSE,
-                refarr |-> FALSE, shared |-> FALSE, collide |-> FALSE, boundary |-> FALSE]
+                refarr |-> FALSE, shared |-> FALSE, collide |-> FALSE, boundary |-> FALSE,
+                deep |-> TRUE, setmax |-> TRUE, icount |-> TRUE, bmstale |-> TRUE]
 DevSeeded   == [asis |-> FALSE, mode |-> "seeded", dup |-> TRUE, sdict |-> TRUE, trailer |-> TRUE, shadow |-> TRUE,
-                refarr |-> TRUE, shared |-> TRUE, collide |-> TRUE, boundary |-> TRUE]
+                refarr |-> TRUE, shared |-> TRUE, collide |-> TRUE, boundary |-> TRUE,
+                deep |-> TRUE, setmax |-> TRUE, icount |-> TRUE, bmstale |-> TRUE]
 DevRepaired == [asis |-> FALSE, mode |-> "repaired", dup |-> FALSE, sdict |-> FALSE, trailer |-> FALSE, shadow |-> FALSE,
-                refarr |-> FALSE, shared |-> FALSE, collide |-> FALSE, boundary |-> FALSE]
+                refarr |-> FALSE, shared |-> FALSE, collide |-> FALSE, boundary |-> FALSE,
+                deep |-> FALSE, setmax |-> FALSE, icount |-> FALSE, bmstale |-> FALSE]
 FormerFindings == {"delete.array.dup", "delete.streamdict", "delete.trailer", "resources.shadow", "contents.refToArray",
                    "content.streamBoundary", "content.sharedStream", "resources.nameCollision"}
 
@@ -645,7 +702,9 @@ ImplNewObjectId(d) == Out([d EXCEPT !.max_id = @ + 1], ResOk(d.max_id + 1))
 ImplAddObject(d, o) ==
     Out([d EXCEPT !.max_id = @ + 1, !.objs = Put(@, d.max_id + 1, o)], ResOk(d.max_id + 1))
 
-ImplReplace(d, id, o) == Out([d EXCEPT !.objs = Put(@, id, o)], ResOk(0))     \* set_object / objects.insert
+\* set_object / objects.insert; as repaired max_id follows a number stored above it
+ImplReplace(d, id, o, dev) ==
+    Out([d EXCEPT !.objs = Put(@, id, o), !.max_id = IF ~dev.setmax /\ id > @ THEN id ELSE @], ResOk(0))
 
 \* remove_object: `?` leaves at the first page whose Annots is not a direct array
 ImplRemoveAnnot(d, x) ==
@@ -693,21 +752,25 @@ DeleteRun(d, x, dev) ==
                  IN Visit((todo \cup new) \ (seen \cup {y}), seen \cup {y})
         visited == Visit(RefsOf(DictO(tr1)), {})
         after(id) == IF id \in visited THEN st(d.objs[id]) ELSE d.objs[id]
-    IN [doc     |-> [d EXCEPT !.objs = [id \in DOMAIN d.objs \ {x} |-> after(id)], !.trailer = tr1],
+    IN [doc     |-> [d EXCEPT !.objs = [id \in DOMAIN d.objs \ {x} |-> after(id)], !.trailer = tr1,
+                              \* as repaired a pending bookmark on the object is sent to the never-used id (0, 65535)
+                              !.bms = IF dev.bmstale THEN @ ELSE [i \in 1..Len(@) |-> IF @[i] = x THEN 0 ELSE @[i]]],
         removed |-> IF x \in DOMAIN d.objs THEN after(x) ELSE None]
 
 ImplDeleteObject(d, x, dev) ==
     LET r == DeleteRun(d, x, dev) IN Out(r.doc, IF r.removed.k = "none" THEN ResErr ELSE ResOk(0))
 
 \* delete_pages: the Parent chain of every deleted page is walked and each Count decremented
-RECURSIVE DecCounts(_, _, _)
-DecCounts(d, par, fuel) ==
+RECURSIVE DecCounts(_, _, _, _)
+DecCounts(d, par, fuel, dev) ==
     IF par.k # "ref" \/ fuel = 0 THEN d
     ELSE IF par.n \in DOMAIN d.objs /\ d.objs[par.n].k = "dict"
          THEN LET t  == d.objs[par.n]
-                  c  == Get(t.v, "Count")
+                  \* as_i64 on the entry itself: an indirect Count is skipped; as repaired it is read through the
+                  \* reference and the decremented value stored directly
+                  c  == IF dev.icount THEN Get(t.v, "Count") ELSE Target(d.objs, Get(t.v, "Count"))
                   t2 == IF c.k = "int" THEN DictO(Put(t.v, "Count", IntO(c.v - 1))) ELSE t
-              IN DecCounts([d EXCEPT !.objs = Put(@, par.n, t2)], Get(t2.v, "Parent"), fuel - 1)
+              IN DecCounts([d EXCEPT !.objs = Put(@, par.n, t2)], Get(t2.v, "Parent"), fuel - 1, dev)
          ELSE d
 
 ImplDeletePages(d, nums, dev) ==
@@ -716,7 +779,7 @@ ImplDeletePages(d, nums, dev) ==
             IF num \notin 1..Len(pp) \/ pp[num] \notin DOMAIN acc.objs THEN acc
             ELSE LET r   == DeleteRun(acc, pp[num], dev)
                      par == IF r.removed.k = "dict" THEN Get(r.removed.v, "Parent") ELSE None
-                 IN DecCounts(r.doc, par, 8)
+                 IN DecCounts(r.doc, par, Cardinality(DOMAIN r.doc.objs), dev)
     IN Out(FoldLeft(one, d, nums), ResOk(0))
 
 ImplPrune(d) ==
@@ -789,7 +852,8 @@ ImplGetOrCreate(d, p, dev) ==
     ELSE LET r == Get(pg.v, "Resources") IN
          IF r.k = "ref" THEN Out(d, IF Target(d.objs, r).k = "none" THEN ResErr ELSE ResOk(0))
          ELSE IF r.k # "none" THEN Out(d, ResOk(0))
-         ELSE LET inh  == EffRes(d.objs, p)
+         ELSE LET \* (`for _ in 0..128`: an entry InheritBound or more levels up is not found)
+                  inh  == IF dev.deep /\ HolderLevel(d.objs, p) >= InheritBound THEN None ELSE EffRes(d.objs, p)
                   \* category dictionaries behind references are copied too (never write to a shared one)
                   own  == IF inh.k = "dict"
                           THEN DictO([cat \in DOMAIN inh.v |-> IF Target(d.objs, inh.v[cat]).k = "dict"
@@ -838,7 +902,9 @@ ImplBuildOutline(d) ==
                           [] key = "Title" -> StrO("B")
                           [] key = "Prev" -> Ref(item(i - 1))
                           [] key = "Next" -> Ref(item(i + 1))])
-             actObj(i) == DictO([D |-> ArrO(<<Ref(d.bms[i]), NameO("Fit")>>), S |-> NameO("GoTo")])
+             \* (a bookmark without a page targets the never-used id (0, 65535), outside the projection's references)
+             target(i) == IF d.bms[i] = 0 THEN [k |-> "refgen", v |-> "0 65535"] ELSE Ref(d.bms[i])
+             actObj(i) == DictO([D |-> ArrO(<<target(i), NameO("Fit")>>), S |-> NameO("GoTo")])
              rootObj == DictO([Count |-> IntO(n), First |-> Ref(item(1)), Last |-> Ref(item(n))])
              new  == {root} \cup {item(i) : i \in 1..n} \cup {act(i) : i \in 1..n}
              obj(id) == IF id = root THEN rootObj
@@ -849,9 +915,11 @@ ImplBuildOutline(d) ==
 
 \* writer.rs: saving only touches cross-reference bookkeeping (outside pi); a cross-reference
 \* stream takes one more object number
-ImplSave(d, fmt) == Out([d EXCEPT !.max_id = IF fmt = "stream" THEN @ + 1 ELSE @], ResOk(0))
+\* (max_id is first raised to the highest number in use: set_object does not maintain it)
+SavedMax(d, fmt) == LET m == MaxOf({d.max_id} \cup DOMAIN d.objs) IN IF fmt = "stream" THEN m + 1 ELSE m
+ImplSave(d, fmt) == Out([d EXCEPT !.max_id = SavedMax(d, fmt)], ResOk(0))
 \* ... and loading the saved bytes gives the same objects; pending bookmarks are not part of a file
-ImplSaveLoad(d, fmt) == Out([d EXCEPT !.max_id = IF fmt = "stream" THEN @ + 1 ELSE @, !.bms = <<>>], ResOk(0))
+ImplSaveLoad(d, fmt) == Out([d EXCEPT !.max_id = SavedMax(d, fmt), !.bms = <<>>], ResOk(0))
 
 \* renumber_objects_with(start), summarised (C10 transcribes it): pages take the page ids in page order, then
 \* all ids become start..start+n-1 in id order; references are renamed in reachable objects only
@@ -887,7 +955,8 @@ ImplAddToPageContent(d, p, ops, dev) == ImplAddPageContents(d, p, EncodeM(ops), 
 
 \* the name for object number n: X<n>; as repaired the first X<m>, m >= n, the page cannot use yet
 InsertName(d, p, n, dev) ==
-    LET used == {t[2] : t \in {u \in ResTriples(d.objs, p) : u[1] = "XObject"}}
+    LET used == IF dev.deep /\ HolderLevel(d.objs, p) >= InheritBound THEN {}
+                ELSE {t[2] : t \in {u \in ResTriples(d.objs, p) : u[1] = "XObject"}}
         free == {m \in n..(n + 8) : XName(m).s \notin used}
     IN IF dev.collide \/ free = {} THEN XName(n) ELSE XName(CHOOSE m \in free : \A k \in free : m <= k)
 
@@ -914,9 +983,11 @@ ImplInsertFormObject(d, p, strm, dev, old) ==
 ObserveM(pre, c, post, B, dev) ==
     [ops |-> [q \in RangeOf(B.pp) |-> DecodeM(IF dev.boundary THEN PlainContent(post.objs, q) ELSE B.content[q])],
      xn  |-> IF ~IsInsert(c) THEN NoName
-             ELSE LET ids  == {id \in DOMAIN post.objs \ DOMAIN pre.objs : post.objs[id] = c.o}
-                      names == {t[2] : t \in {u \in ResTriples(post.objs, c.id) :
-                                                  u[1] = "XObject" /\ \E id \in ids : u[3] = Ref(id)}}
+             ELSE LET ids  == {id \in DOMAIN post.objs : (id \notin DOMAIN pre.objs \/ pre.objs[id] # post.objs[id])
+                                                         /\ post.objs[id] = c.o}
+                      before == ResTriples(pre.objs, c.id)
+                      names == {t[2] : t \in {u \in ResTriples(post.objs, c.id) :     \* (an entry the call made)
+                                                  u[1] = "XObject" /\ u \notin before /\ \E id \in ids : u[3] = Ref(id)}}
                       hits == {m \in 1..(post.max_id + 8) : XName(m).s \in names}
                   IN IF hits = {} THEN NoName ELSE XName(CHOOSE m \in hits : \A k \in hits : m <= k)]
 
@@ -924,7 +995,7 @@ ObserveM(pre, c, post, B, dev) ==
 Impl(d, c, dev, dec) ==
     CASE c.op = "NewObjectId"          -> ImplNewObjectId(d)
       [] c.op = "AddObject"            -> ImplAddObject(d, c.o)
-      [] c.op = "Replace"              -> ImplReplace(d, c.id, c.o)
+      [] c.op = "Replace"              -> ImplReplace(d, c.id, c.o, dev)
       [] c.op = "DeleteObject"         -> ImplDeleteObject(d, c.id, dev)
       [] c.op = "RemoveAnnot"          -> ImplRemoveAnnot(d, c.id)
       [] c.op = "Prune"                -> ImplPrune(d)
@@ -949,13 +1020,13 @@ Impl(d, c, dev, dec) ==
 \*   every call     the document is sound so far (A.sound): no reachable reference to a missing
 \*                  object, every content id names a stream (either is only ever broken by a step
 \*                  already reported)
-\*   Replace        an existing or an issued id (set_object above max_id is a caller error) that is
+\*   Replace        any id (set_object also stores under a number nobody uses yet) that is
 \*                  not a node of the page tree (the caller would own Counts and Parents) nor part
 \*                  of a page's Contents (the caller would own the pages' content)
 \*   DeleteObject   not the catalog or a node of the page tree (pages are deleted by delete_pages)
 Pre(d, A, gh, c) ==
     /\ A.sound
-    /\ CASE c.op = "Replace"      -> c.id \in (DOMAIN d.objs \cup gh.issued) \ (A.prot \cup A.cobjs) /\ c.id <= d.max_id
+    /\ CASE c.op = "Replace"      -> c.id > 0 /\ c.id \notin (A.prot \cup A.cobjs)
          [] c.op = "DeleteObject" -> c.id \notin A.prot
          [] OTHER                 -> TRUE
 =============================================================================
